@@ -169,6 +169,8 @@ where
     ) {
         let store = stores.get(store_id).unwrap();
         while let Ok(c) = commands_receiver.recv() {
+            #[cfg(feature = "similari_verif")]
+            crate::verif::point("store.cmd.begin", store_id as u64);
             match c {
                 Commands::Drop(channel) => {
                     let _r = channel.send(Results::Dropped);
@@ -299,6 +301,8 @@ where
                     }
                 }
             }
+            #[cfg(feature = "similari_verif")]
+            crate::verif::point("store.cmd.end", store_id as u64);
         }
     }
 
@@ -475,6 +479,9 @@ where
         let tracks_vec = self.fetch_tracks(tracks);
 
         let res = self.foreign_track_distances(tracks_vec.clone(), feature_class, only_baked);
+
+        #[cfg(feature = "similari_verif")]
+        crate::verif::point("store.owned.window", tracks.len() as u64);
 
         for t in tracks_vec {
             self.add_track(t).unwrap();
